@@ -114,19 +114,16 @@ func ZZ_C20_Provider() {
 				deliver(g.Msg, g.Sender)
 			}
 			if len(cands) > 0 && !escaped {
-				// exactly one of the members on that address is gone (which one is not specified)
-				gone := -1
+				// a member on that address is gone (if several members share the address the property does not say
+				// whether one or all of them go: both are accepted; members on other addresses are checked below)
 				n := 0
 				for _, k := range cands {
 					if !s.members.Contains(uni[k]) {
-						gone = k
+						in[k] = false
 						n++
 					}
 				}
-				zzrt.Assert(n == 1, "C20:unreachable-report-does-not-remove-exactly-one-member-on-that-address")
-				if gone >= 0 {
-					in[gone] = false
-				}
+				zzrt.Assert(n >= 1, "C20:unreachable-report-removes-no-member-on-that-address")
 			}
 		}
 		zzrt.Assert(!escaped, "C20:provider-panics")
